@@ -7,6 +7,7 @@ DEDUCTIVE = [{'fid': 'odml/base.py::Sectionable._match_iterable', 'mode': 'heap'
              {'fid': 'odml/base.py::SmartList.__getitem__', 'mode': 'heap'},
              {'fid': 'odml/base.py::Sectionable.document.getter', 'mode': 'heap'}]
 TIMEOUT_S = 20
+TRUSTED = ['Python == on str as modelled by the engine']
 from props.common import HEAP_ASSUMPTIONS as ASSUMPTIONS   # noqa: E402
 EXPLANATION = 'deductive: the name lookup used by every path step (_match_iterable) returns the one child of that name or raises ValueError iff there is none (uses the uniqueness invariant I6), and SmartList.__getitem__ returns the first match; everything else: '  'bounded stand-in: path round trips for all ordered pairs, traversal order/once/depth, find within relation, exhaustively over small trees'
 
